@@ -64,7 +64,7 @@ def per_coefficient_draw(ctx):
 def run(ctx):
     ctx.decided = ("no call or cast in workspace library code reaches an entropy source other than a caller-supplied "
                    "CryptoRng (getrandom/rand/OsRng/time/HashMap RandomState/addresses): expected count 0, with a "
-                   "positive control that must fire on every run; the symbolic count of primitive draws (fill_bytes / Field::random, multiplied by the enclosing loops and instantiated through every forwarding call) of each rng-consuming operation equals the reviewed summary; per-item draws sit inside the per-item construct (closure of the "
+                   "positive control that must fire on every run; the count of primitive draws, as a term over loop multiplicities (fill_bytes / Field::random, multiplied by the enclosing loops and instantiated through every forwarding call) of each rng-consuming operation equals the reviewed summary; per-item draws sit inside the per-item construct (closure of the "
                    "coefficient generator, batch loop, retry loop, pre-processing loop); distinct roles come from "
                    "distinct call-site executions; every secret output of the entry points depends on the rng; the six "
                    "Field::random implementations forward the given rng.")
